@@ -199,7 +199,8 @@ fn maybe_shuffle(rng: &mut Rng, mut v: Vec<u64>) -> Vec<u64> {
 pub fn rand_domain_list(rng: &mut Rng, max_len: u64) -> (&'static str, Vec<u64>) {
     loop {
         let (k, l) = rand_list(rng, max_len);
-        if in_domain(&l) {
+        // sequences are operated on (sliced, masked, rechunked): keep every sub-list out of the known classes too
+        if in_domain(&l) && !wide_span(&l) {
             return (k, l);
         }
     }
